@@ -678,7 +678,7 @@ func runC08(c *Ctx) {
 	}
 	// truncation at every byte of the small seeds
 	for _, s := range allSeeds {
-		if len(s.src) > 2500 && !c.Thorough {
+		if len(s.src) > 1200 && !c.Thorough {
 			continue
 		}
 		for i := 0; i < len(s.src); i++ {
@@ -698,11 +698,11 @@ func runC08(c *Ctx) {
 		}
 	}
 	// random mutants
-	n := 6000
+	n := 3000
 	if c.Thorough {
 		n = 400000
 	}
-	deadline := time.Now().Add(25 * time.Second)
+	deadline := time.Now().Add(12 * time.Second)
 	if c.Thorough {
 		deadline = time.Now().Add(6 * time.Minute)
 	}
@@ -1152,7 +1152,7 @@ func c08Scaling(c *Ctx) {
 		{"long-array", long}, {"long-map", long}, {"long-string", long}, {"long-escapes", long}, {"long-comment", long},
 		{"long-unterminated", long}, {"leading-zeros", long}, {"dotted-id", long}, {"array-dims", []int{100, 32767, 32768, 70000}},
 		{"many-stages", decl}, {"many-params", decl}, {"trailing-comments", decl}, {"leading-comments", decl},
-		{"call-chain", []int{50, 150, 450}}, {"call-chain-reversed", []int{50, 150, 450}}, {"wide-calls", decl},
+		{"call-chain", []int{40, 120, 360}}, {"call-chain-reversed", []int{40, 120, 360}}, {"wide-calls", decl},
 		{"many-invalid", long}, {"many-quotes", long}, {"many-spaces", long},
 	}
 	self, err := os.Executable()
